@@ -16,6 +16,8 @@ for mp in sorted(glob.glob(os.path.join(VERIF, "seeded", "*", "meta.json"))):
     checks = ",".join(m["checks"].keys())
     cmd = [os.path.join(VERIF, "lib", "seedcheck.py"), n, m["property"], "--skip-suite", "--diff", os.path.join(d, "patch.diff"), "--demo", os.path.join(d, demo),
            "--demo-dir", m["demo"]["place_in"], "--demo-run", runre, "--needs", m["needs"], "--checks", checks]
+    if " -race" in m["demo"]["run"]:
+        cmd.append("--demo-race")
     out = subprocess.run(cmd, stdout=subprocess.PIPE, stderr=subprocess.STDOUT, text=True).stdout
     lines = [l for l in out.splitlines() if l.startswith("check") or l.startswith("DEMO") or l.startswith("CHANGE")]
     print(n, "|", " ; ".join(l[:120] for l in lines), flush=True)
